@@ -1,6 +1,7 @@
 package sym
 
 import (
+	"os"
 	"fmt"
 	"sort"
 	"strings"
@@ -138,6 +139,8 @@ func (e *Explorer) inconclusive(msg string) {
 	e.mu.Unlock()
 }
 
+var noDomPrune = os.Getenv("SYMGO_NO_DOMPRUNE") != ""
+
 // PathCtx is the state of one path execution.
 type PathCtx struct {
 	T      *TermCtx
@@ -166,6 +169,10 @@ type PathCtx struct {
 	concrete bool // selftest mode: all inputs come from model, no solver
 	seenAssume map[string]bool
 	permCounter int
+	dom map[*Term]*valSet // per-variable value sets (domain.go)
+	domVer map[*Term]int
+	domCache map[*Term]domEntry
+	pruned int
 }
 
 func (p *PathCtx) flush() {
@@ -224,6 +231,7 @@ func (p *PathCtx) addPC(c *Term, val bool) {
 	if p.concrete {
 		return
 	}
+	p.domRestrict(c, val)
 	ref := p.T.Emit(c, &p.buf)
 	if val {
 		fmt.Fprintf(&p.buf, "(assert %s)\n", ref)
@@ -249,17 +257,16 @@ func (p *PathCtx) addPC(c *Term, val bool) {
 func (p *PathCtx) querySide(cond *Term, val bool) (string, map[string]uint64) {
 	ref := p.T.Emit(cond, &p.buf)
 	p.flush()
-	if val {
-		p.S.Send("(push)\n(assert " + ref + ")\n")
-	} else {
-		p.S.Send("(push)\n(assert (not " + ref + "))\n")
+	lit := ref
+	if !val {
+		lit = "(not " + ref + ")"
 	}
-	r := p.S.CheckSat()
+	// the side is an assumption literal: the solver keeps its state across questions (no push/pop)
+	r := p.S.CheckSatAssuming(lit)
 	var m map[string]uint64
 	if r == "sat" {
 		m = p.S.GetValues(p.vars)
 	}
-	p.S.Send("(pop)\n")
 	return r, m
 }
 
@@ -284,6 +291,13 @@ func (p *PathCtx) branch(cond *Term, isVal bool, val uint64) bool {
 	}
 	if p.concrete {
 		return p.evalBool(cond)
+	}
+	if !noDomPrune {
+		if ct, cf, ok := p.domSides(cond); ok && ct != cf {
+			// only one side is possible over the current value sets: no decision, no solver call
+			p.pruned++
+			return ct
+		}
 	}
 	i := len(p.dec)
 	if i < len(p.prefix) {
@@ -329,6 +343,12 @@ func (p *PathCtx) Concretize(t *Term) uint64 {
 		}
 		if kv, ok := p.known[eqm]; ok && kv {
 			return vm
+		}
+		if !noDomPrune && !p.concrete {
+			// likewise when the value sets leave t a single value: branch() would take no decision
+			if ct, cf, ok := p.domSides(eqm); ok && ct && !cf {
+				return vm
+			}
 		}
 		var v uint64
 		i := len(p.dec)
